@@ -91,6 +91,11 @@ package blocklist
 //@   nosafety all
 //@   assert at call os.CreateTemp#1: s.version == 0 || s.version > old(b.lastPersisted)
 //@   assert at call os.Rename#1: calls("(*os.File).Sync") == 1 && calls("(*os.File).Close") == 1 && calls("os.Rename") == 0 && arg0 == tmpName && arg1 == path
+//@   loop 1 invariant lastret("(*os.File).WriteString", 1) == nil && calls("github.com/semihalev/zlog/v2.Warn") == 0 && calls("(*middleware/blocklist.BlockList).persist$2") == 0 && calls("os.Rename") == 0 && calls("(*os.File).Sync") == 0 && calls("(*os.File).Close") == 0 && calls("os.CreateTemp") == 1
+//@   loop 2 invariant lastret("(*os.File).WriteString", 1) == nil && calls("github.com/semihalev/zlog/v2.Warn") == 0 && calls("(*middleware/blocklist.BlockList).persist$2") == 0 && calls("os.Rename") == 0 && calls("(*os.File).Sync") == 0 && calls("(*os.File).Close") == 0 && calls("os.CreateTemp") == 1
+//@   # the previous complete file is replaced only by a COMPLETE new one: the rename happens only if no stage reported a
+//@   # failure (no warning was logged, the failure closure never ran) and the last write to the temp file succeeded
+//@   assert at call os.Rename#1: calls("github.com/semihalev/zlog/v2.Warn") == 0 && calls("(*middleware/blocklist.BlockList).persist$2") == 0 && lastret("(*os.File).WriteString", 1) == nil && lastret("(*os.File).Sync") == nil && lastret("(*os.File).Close") == nil
 //@   assert at store blocklist.BlockList.lastPersisted#1: calls("os.Rename") == 1
 //@   assert at store blocklist.BlockList.lastPersisted#1: value == s.version
 //@   assert at store blocklist.BlockList.lastPersisted#1: s.version == 0 || s.version > old(b.lastPersisted)
